@@ -1799,6 +1799,343 @@ def rule_newton_girard(chk, uni):
             chk.note("newton-girard", where, "recursion over %s without any index-dependent division" % R)
     chk.count("self-consuming list recursions", len(seen))
 
+
+# ----------------------------------------------------------------------------
+# round 10: diag / gradient width / double selection / scatter / lock typestate / sklearn __init__
+# ----------------------------------------------------------------------------
+def _method_sigs(uni, alias, mod, cls, fn, names=("__call__", "k_and_deriv", "diag")):
+    ex, _ = value_slice(fn, value_starts(fn))
+    return primitives(uni, mod, cls, fn, ex, alias, set(names))
+
+
+def _selection(sigs):
+    return {s for s in sigs if (s[0] == "select" and s[1] == "X") or (s[0] == "xform" and s[2] == ("X",))}
+
+
+def _own_value(sigs):
+    """the method computes a kernel value itself (distance / product primitives), not only by delegation"""
+    return any(s[0] in ("cdist", "pdist", "broadcast-diff", "broadcast-prod", "dot", "einsum") for s in sigs)
+
+
+def _column_independent(fn):
+    """the method uses its array argument only through the number of rows"""
+    ps = [a.arg for a in fn.args.args if a.arg not in ("self", "cls")]
+    if not ps:
+        return True
+    x = ps[0]
+    for n in ast.walk(fn):
+        if isinstance(n, ast.Name) and n.id == x and isinstance(n.ctx, ast.Load):
+            par = pf.parent(n)
+            ok_ = False
+            if isinstance(par, ast.Attribute) and par.attr == "shape":
+                pp = pf.parent(par)
+                ok_ = isinstance(pp, ast.Subscript) and pf.src(pp.slice) == "0"
+            if isinstance(par, ast.Call) and pf.call_name(par) in ("_num_samples", "len"):
+                ok_ = True
+            if not ok_:
+                return False
+    return True
+
+
+def rule_diag_selection(chk, uni, alias):
+    km = uni.km
+    for cname, cls in km.classes.items():
+        if not uni.is_kernel(km, cls):
+            continue
+        rc = uni.find_method(km, cls, "__call__")
+        rd = uni.find_method(km, cls, "diag")
+        if rc is None or rd is None or rc[0] is not km:
+            continue  # value computed by sklearn: its own diag belongs to it
+        mro = [c for _, c in uni.mro(km, cls)]
+        ccls, cfn = rc[1], rc[2]
+        dmod, dcls, dfn = rd
+        csig = _method_sigs(uni, alias, km, cls, cfn)
+        sel = _selection(csig)
+        own = _own_value(csig)
+        if not sel and not own:
+            continue
+        inst = "%s: diag agrees with the kernel evaluated by %s.__call__" % (cname, ccls.name)
+        pos_c, pos_d = mro.index(ccls), mro.index(dcls)
+        if pos_d > pos_c:
+            # diag inherited from above the class that defines the value
+            if dmod is km and any(s[0] == "delegate" and s[1] == "self" for s in _method_sigs(uni, alias, km, cls, dfn)):
+                chk.ok("diag-selection", inst + " (inherited diag evaluates self(X))", nontrivial=False)
+            elif not own and _column_independent(dfn):
+                chk.ok("diag-selection", inst + " (normalised kernel: inherited diag does not look at the columns)")
+            else:
+                why = ("computes its own kernel function" if own else
+                       "evaluates the base kernel on %s" % ", ".join(fmt_sig(s) for s in sorted(sel)))
+                chk.violation("diag-selection", KR, cname, "diag inherited from %s" % dcls.name, cls.lineno,
+                              "%s.__call__ %s, but diag is inherited from %s, which %s: diag(X) != diag k(X, X)"
+                              % (ccls.name, why, dcls.name,
+                                 "is the diagonal of a different kernel function" if own
+                                 else "looks at all columns of X"), instance=inst)
+            continue
+        if dmod is not km:
+            continue
+        dsig = _method_sigs(uni, alias, km, cls, dfn)
+        if any(s[0] == "delegate" and s[1] == "self" for s in dsig):
+            chk.ok("diag-selection", inst + " (diag evaluates self(X))", nontrivial=False)
+            continue
+        dsel = _selection(dsig)
+        if dsel == sel:
+            chk.ok("diag-selection", inst + " (%s)" % (", ".join(fmt_sig(s) for s in sorted(sel)) or "no column selection"))
+        else:
+            chk.violation("diag-selection", KR, "%s.diag" % dcls.name, "column selection of diag", dfn.lineno,
+                          "%s.__call__ evaluates the kernel on %s, but %s.diag uses %s: diag(X) != diag k(X, X)"
+                          % (ccls.name, ", ".join(fmt_sig(s) for s in sorted(sel)) or "all columns", dcls.name,
+                             ", ".join(fmt_sig(s) for s in sorted(dsel)) or "all columns of X"), instance=inst)
+
+
+def rule_grad_width(chk, uni, alias):
+    km = uni.km
+    for cname, cls in km.classes.items():
+        fn = pf.methods(cls).get("k_and_deriv")
+        if fn is None or _only_raises(fn):
+            continue
+        sigs = _method_sigs(uni, alias, km, cls, fn)
+        if not any(s[0] == "select" and s[1] == "X" for s in sigs):
+            continue
+        where = "%s.k_and_deriv" % cname
+        inst = "%s: the gradient covers every column of the input X" % where
+        xname = [a.arg for a in fn.args.args if a.arg != "self"][0]
+        rebinds = [st.lineno for st in pf.walk_no_nested(fn) if isinstance(st, ast.Assign)
+                   and any(isinstance(t, ast.Name) and t.id == xname for t in st.targets)]
+        first_rebind = min(rebinds) if rebinds else 10 ** 9
+        defs = fn_defs(fn)
+        bad = None
+        for r in pf.walk_no_nested(fn):
+            if not isinstance(r, ast.Return) or r.value is None:
+                continue
+            conds = cfgm.conditions_at(r)
+            if any(pol and pf.is_self_attr(t, "_locked") for t, pol, k in conds):
+                continue  # re-entrant branch: input already selected by the outer call
+            if not (isinstance(r.value, ast.Tuple) and len(r.value.elts) == 2 and isinstance(r.value.elts[1], ast.Name)):
+                bad = (r, "it returns the result of the sub-kernel directly")
+                break
+            gname = r.value.elts[1].id
+            full = False
+            for st, val, tgt in defs.get(gname, []):
+                if isinstance(val, ast.Call) and (pf.call_name(val) or "").split(".")[-1] in ("zeros", "zeros_like") and val.args:
+                    shp = val.args[0]
+                    while isinstance(shp, ast.Name) and shp.id in defs:
+                        cand = [v for s_, v, t_ in defs[shp.id] if isinstance(v, (ast.Tuple, ast.BinOp))]
+                        if not cand:
+                            break
+                        shp = cand[-1]
+                    for x in ast.walk(shp):
+                        e = x
+                        if isinstance(e, ast.Name) and e.id in defs:
+                            for s_, v, t_ in defs[e.id]:
+                                if pf.src(v) == "%s.shape[1]" % xname and s_.lineno < first_rebind:
+                                    full = True
+                        if pf.src(e) == "%s.shape[1]" % xname and getattr(e, "lineno", 0) < first_rebind:
+                            full = True
+            scatter = any(isinstance(tgt, ast.Subscript) for st, val, tgt in defs.get(gname, []))
+            if not (full and scatter):
+                bad = (r, "`%s` is not an array of width %s.shape[1] (of the original %s) filled through the selected "
+                          "columns" % (gname, xname, xname))
+                break
+        if bad is None:
+            chk.ok("grad-width", inst)
+        else:
+            chk.violation("grad-width", KR, where, "gradient width", bad[0].lineno,
+                          "the kernel acts on a subset of the columns (%s), and %s: the returned gradient has one slot "
+                          "per SELECTED column, so callers that expect d k / d X for all columns (DFTKernel, products "
+                          "with other kernels) mis-assign or silently broadcast it"
+                          % (", ".join(fmt_sig(s) for s in sorted(sigs) if s[0] == "select"), bad[1]), instance=inst)
+
+
+def rule_double_selection(chk, uni, alias):
+    km = uni.km
+    for cname, cls in km.classes.items():
+        if not uni.is_kernel(km, cls):
+            continue
+        mro = uni.mro(km, cls)
+        for pos, (m, c) in enumerate(mro):
+            if m is not km:
+                continue
+            for mname, fn in pf.methods(c).items():
+                if mname not in ("__call__", "diag", "k_and_deriv"):
+                    continue
+                sigs = _method_sigs(uni, alias, km, cls, fn)
+                if not _selection(sigs):
+                    continue
+                locks = any(_is_lock_assign(s_, True) for s_ in pf.walk_no_nested(fn))
+                for n in pf.walk_no_nested(fn):
+                    if not _is_base_delegation(n):
+                        continue
+                    tname = n.func.attr
+                    if pf.is_self_attr(n.func.value, "_base_cls"):
+                        rest = mro[pos + 1:]
+                        rest = [(mm, cc) for mm, cc in rest if not cc.name.startswith("_IndexMixin")]
+                    else:
+                        rest = mro[pos + 1:]
+                    target = None
+                    for mm, cc in rest:
+                        if tname in pf.methods(cc):
+                            target = (mm, cc, pf.methods(cc)[tname])
+                            break
+                    if target is None or target[0] is not km:
+                        continue
+                    where = "%s.%s" % (c.name, mname)
+                    inst = "%s (as %s): delegation to %s.%s does not re-enter a selecting method of self" % (
+                        where, cname, target[1].name, tname)
+                    again = None
+                    for x in pf.walk_no_nested(target[2]):
+                        if isinstance(x, ast.Call):
+                            re_name = None
+                            if isinstance(x.func, ast.Name) and x.func.id == "self":
+                                re_name = "__call__"
+                            elif isinstance(x.func, ast.Attribute) and isinstance(x.func.value, ast.Name) \
+                                    and x.func.value.id == "self" and x.func.attr in ("__call__", "diag", "k_and_deriv"):
+                                re_name = x.func.attr
+                            if re_name is None:
+                                continue
+                            rr = uni.find_method(km, cls, re_name)
+                            if rr is None or rr[0] is not km:
+                                continue
+                            if _selection(_method_sigs(uni, alias, km, cls, rr[2])):
+                                guarded = any(pf.is_self_attr(y, "_locked") for y in ast.walk(rr[2]))
+                                if not (guarded and locks):
+                                    again = (x, rr)
+                    if again is None:
+                        chk.ok("double-selection", inst)
+                    else:
+                        x, rr = again
+                        chk.violation("double-selection", KR, where, "re-entry through %s.%s" % (target[1].name, tname), n.lineno,
+                                      "%s selects the active columns and then calls %s.%s, whose `%s` resolves, for an "
+                                      "instance of %s, to %s.%s -- which selects the columns a second time (wrong "
+                                      "columns, or an IndexError when fewer columns remain)"
+                                      % (where, target[1].name, tname, pf.src(x)[:40], cname, rr[1].name, rr[2].name),
+                                      instance=inst)
+
+
+def rule_scatter(chk, uni):
+    km = uni.km
+    for cname, cls in km.classes.items():
+        for mname, fn in pf.methods(cls).items():
+            stores = {}
+            for st in pf.walk_no_nested(fn):
+                if isinstance(st, (ast.Assign, ast.AugAssign)):
+                    for t in (st.targets if isinstance(st, ast.Assign) else [st.target]):
+                        for tt in (t.elts if isinstance(t, (ast.Tuple, ast.List)) else [t]):
+                            if isinstance(tt, ast.Subscript) and isinstance(tt.value, ast.Name):
+                                idx = tt.slice.elts[-1] if isinstance(tt.slice, ast.Tuple) else tt.slice
+                                if pf.is_self_attr(idx):
+                                    stores.setdefault(tt.value.id, []).append((st, idx.attr))
+            for arr, sts in stores.items():
+                attrs = {a for _, a in sts}
+                if len(attrs) < 2:
+                    continue
+                where = "%s.%s" % (cname, mname)
+                inst = "%s: scatters into %s through %s accumulate" % (where, arr, sorted(attrs))
+                plain = [st for st, a in sts if isinstance(st, ast.Assign)]
+                if not plain:
+                    chk.ok("scatter-accumulate", inst)
+                else:
+                    chk.violation("scatter-accumulate", KR, where, "scatter through self.%s" % "/self.".join(sorted(attrs)),
+                                  plain[0].lineno,
+                                  "`%s` and its sibling store write into the same array through the index lists %s, which "
+                                  "nothing keeps disjoint: a column that occurs in both lists keeps only the last "
+                                  "contribution; the contributions must be accumulated (`+=` into zeros)"
+                                  % (pf.src(plain[0])[:70], ", ".join("self." + a for a in sorted(attrs))), instance=inst)
+
+
+def rule_lock_release(chk, uni):
+    km = uni.km
+    for cname, cls in km.classes.items():
+        for mname, fn in pf.methods(cls).items():
+            if mname in getattr(km, "absorbed", ()):
+                continue
+            locks = [s_ for s_ in pf.walk_no_nested(fn) if _is_lock_assign(s_, True)]
+            unlocks = [s_ for s_ in pf.walk_no_nested(fn) if _is_lock_assign(s_, False)]
+            if not locks or not unlocks:
+                continue
+            g = cfgm.CFG(fn)
+            un_ids = {g.node_of(u).id for u in unlocks}
+            where = "%s.%s" % (cname, mname)
+            for s_ in locks:
+                region, work = set(), list(g.succ[g.node_of(s_).id])
+                while work:
+                    u = work.pop()
+                    if u in region or u in un_ids:
+                        continue
+                    region.add(u)
+                    work.extend(g.succ[u])
+                risky = []
+                for u in sorted(region):
+                    n = g.nodes[u]
+                    if n.ast is None or n.kind in ("handler",) or isinstance(n.ast, ast.Try):
+                        continue
+                    roots = [n.ast.test] if n.kind == "test" else ([n.ast.iter] if n.kind == "iter" else [n.ast])
+                    if not any(isinstance(x, (ast.Call, ast.Subscript, ast.BinOp)) for r_ in roots for x in ast.walk(r_)):
+                        continue
+                    tr = pf.enclosing(n.ast, (ast.Try,))
+                    prot = False
+                    while tr is not None:
+                        if any(_is_lock_assign(y, False) for y in tr.finalbody) and any(n.ast is y for b in tr.body for y in ast.walk(b)):
+                            prot = True
+                        tr = pf.enclosing(tr, (ast.Try,))
+                    if not prot:
+                        risky.append(n)
+                inst = "%s: the lock is released on exceptional exits too" % where
+                if not risky:
+                    chk.ok("lock-release", inst)
+                else:
+                    chk.violation("lock-release", KR, where, "unprotected locked region", risky[0].ast.lineno,
+                                  "between `self._locked = True` and `self._locked = False` %d statement(s) can raise "
+                                  "(first: `%s`) and are not inside a try whose finally releases the lock: after one "
+                                  "rejected call (wrong shape, bad index) the instance stays locked, and every later "
+                                  "call takes the `if self._locked` branch and evaluates the base kernel on ALL columns"
+                                  % (len(risky), pf.src(risky[0].ast).split("\n")[0][:70]), instance=inst)
+
+
+def rule_sklearn_init(chk, uni):
+    km = uni.km
+    for cname, cls in km.classes.items():
+        if not uni.is_kernel(km, cls):
+            continue
+        mro = uni.mro(km, cls)
+        r = uni.find_method(km, cls, "__init__")
+        gp_ = uni.find_method(km, cls, "get_params")
+        custom_get_params = gp_ is not None and gp_[0] is km
+        inst = "%s: sklearn parameter introspection works (explicit __init__, parameters stored under their names)" % cname
+        if r is None:
+            if custom_get_params:
+                chk.ok("sklearn-init", inst + " (own get_params)", nontrivial=False)
+            else:
+                chk.violation("sklearn-init", KR, cname, "no __init__ in the MRO", cls.lineno,
+                              "no class of %s defines __init__, so sklearn's Kernel.get_params inspects "
+                              "object.__init__(*args, **kwargs) and raises RuntimeError; theta, bounds, clone_with_theta, "
+                              "repr and == all go through get_params" % " > ".join(c.name for _, c in mro), instance=inst)
+            continue
+        if custom_get_params:
+            chk.ok("sklearn-init", inst + " (own get_params)", nontrivial=False)
+            continue
+        init = r[2]
+        if init.args.vararg is not None:
+            chk.violation("sklearn-init", KR, "%s.__init__" % r[1].name, "*%s" % init.args.vararg.arg, init.lineno,
+                          "the constructor takes *%s: Kernel.get_params raises RuntimeError" % init.args.vararg.arg,
+                          instance=inst)
+            continue
+        stored = set()
+        for m, c in mro:
+            i2 = pf.methods(c).get("__init__")
+            if i2 is not None:
+                stored |= {t.attr for x in ast.walk(i2) if isinstance(x, (ast.Assign, ast.AnnAssign))
+                           for t in (x.targets if isinstance(x, ast.Assign) else [x.target]) if pf.is_self_attr(t)}
+            stored |= {n for n, f in pf.methods(c).items() if any(pf.src(d) == "property" for d in f.decorator_list)}
+        params = [a.arg for a in init.args.args[1:] + init.args.kwonlyargs]
+        missing = [p_ for p_ in params if p_ not in stored]
+        if missing:
+            chk.violation("sklearn-init", KR, "%s.__init__" % r[1].name, "parameter %s" % missing[0], init.lineno,
+                          "constructor parameter(s) %s are not stored as attributes of the same name: get_params does "
+                          "getattr(self, name) and raises AttributeError" % missing, instance=inst)
+        else:
+            chk.ok("sklearn-init", inst)
+
+
 # ----------------------------------------------------------------------------
 def analyse(chk):
     tree = chk.tree
@@ -1825,6 +2162,24 @@ def analyse(chk):
     chk.guard(rule_param_write, uni, prog)
     chk.rule("hyper-memo", "state kept on a kernel object between calls is keyed by every hyper-parameter it depends on")
     chk.guard(rule_hyper_memo, uni)
+    chk.rule("diag-selection", "diag applies the column selection / kernel function of the class's __call__")
+    chk.rule("grad-width", "k_and_deriv of a column-restricting kernel returns a gradient over all input columns")
+    chk.rule("double-selection", "a selecting method does not re-enter a selecting method of self through its base class")
+    chk.rule("scatter-accumulate", "scatters through several index lists into one array accumulate")
+    chk.rule("lock-release", "the re-entrancy lock is released on exceptional exits (try/finally)")
+    chk.rule("sklearn-init", "every kernel class has an explicit __init__ whose parameters are stored under their names")
+    chk.guard(rule_diag_selection, uni, alias)
+    chk.guard(rule_grad_width, uni, alias)
+    chk.guard(rule_double_selection, uni, alias)
+    chk.guard(rule_scatter, uni)
+    chk.guard(rule_lock_release, uni)
+    chk.guard(rule_sklearn_init, uni)
+    chk.floor("diag-selection", 6, "selecting / self-computing kernel classes")
+    chk.floor("grad-width", 2, "PartialRBF, PartialARBF, _SubsetMixin, _SpinSymMixin")
+    chk.floor("double-selection", 4, "delegations of the selecting methods")
+    chk.floor("scatter-accumulate", 1, "_SpinSymMixin.k_and_deriv")
+    chk.floor("lock-release", 3, "six locked regions")
+    chk.floor("sklearn-init", 16, "kernel classes")
     chk.rule("newton-girard", "list recursions that re-use earlier entries normalise each entry inside the loop, like their siblings")
     chk.guard(rule_newton_girard, uni)
     chk.floor("newton-girard", 4, "value and derivative recursions of DiffARBF and DiffAdditiveMixin")
@@ -2039,6 +2394,19 @@ def _revert_ng(i):
     return fn
 
 
+
+def _revert_partial_rbf(text):
+    import re as _re
+    m_ = _re.search(r"(class PartialRBF\(DiffRBF\):(?:.*\n)+?)    def k_and_deriv\(self, X, Y=None\):\n(?:.*\n)+?        return k, dk\n", text)
+    if not m_:
+        return None
+    old_form = ("    def k_and_deriv(self, X, Y=None):\n        if self.active_dims is None:\n            X = X[:, self.start :]\n"
+                "            if Y is not None:\n                Y = Y[:, self.start :]\n        else:\n"
+                "            X = X[:, self.active_dims]\n            if Y is not None:\n                Y = Y[:, self.active_dims]\n"
+                "        return super(PartialRBF, self).k_and_deriv(X, Y)\n")
+    return text[:m_.start()] + m_.group(1) + old_form + text[m_.end():]
+
+
 def mutants(tree):
     return [
         # units (E-deg)
@@ -2085,12 +2453,12 @@ def mutants(tree):
                "        diff = (X[np.newaxis, :, :] - Y[:, np.newaxis, :]) / self.length_scale\n        k0 = np.exp(-0.5 * diff**2)\n        dot = 1 + invssq * X[:, np.newaxis, :] * Y[np.newaxis, :, :]\n        if eval_gradient:\n            dk0 = -1.0",
                expect="sibling-primitives"),
         Mutant("PartialRBF.k_and_deriv forgets active_dims", KR,
-               "            X = X[:, self.active_dims]\n            if Y is not None:\n                Y = Y[:, self.active_dims]\n        return super(PartialRBF, self).k_and_deriv(X, Y)",
-               "            X = X[:, self.start :]\n            if Y is not None:\n                Y = Y[:, self.start :]\n        return super(PartialRBF, self).k_and_deriv(X, Y)",
+               "            inds = slice(self.start, None)\n        else:\n            inds = self.active_dims\n        Xs = X[:, inds]",
+               "            inds = slice(self.start, None)\n        else:\n            inds = slice(self.start, None)\n        Xs = X[:, inds]",
                expect="sibling-primitives"),
         Mutant("Subset k_and_deriv does not index Y", KR,
-               "        if Y is not None:\n            Y = Y[:, self.indexes]\n            shape = (X.shape[0], Y.shape[0], X.shape[1])",
-               "        if Y is not None:\n            shape = (X.shape[0], Y.shape[0], X.shape[1])",
+               "            if Y is not None:\n                Y = Y[:, self.indexes]\n                shape = (X.shape[0], Y.shape[0], X.shape[1])",
+               "            if Y is not None:\n                shape = (X.shape[0], Y.shape[0], X.shape[1])",
                expect="sibling-primitives"),
         Mutant("poly derivative value without gamma", KR,
                "        k = 1.0\n        dk = 0.0\n        dot1 = (self.gamma * X).dot(Y.T)", "        k = 1.0\n        dk = 0.0\n        dot1 = X.dot(Y.T)",
@@ -2128,6 +2496,37 @@ def mutants(tree):
         Mutant("get_k zeroes small features of X0T in place", DKR, "        nspin, N0, Nsamp = X0T.shape\n        X1 = self.get_descriptors(X0T)\n        if self.mode == \"POL\":\n            if nspin == 1:\n                X1 = np.concatenate([X1, X1], axis=0)\n            elif nspin != 2:\n                raise ValueError\n            X1 = X1.reshape(2, Nsamp, self.N1)\n            kaa = self.kernel(X1[0], self.X1ctrl[0])",
                "        nspin, N0, Nsamp = X0T.shape\n        X0T[X0T < 1e-12] = 0.0\n        X1 = self.get_descriptors(X0T)\n        if self.mode == \"POL\":\n            if nspin == 1:\n                X1 = np.concatenate([X1, X1], axis=0)\n            elif nspin != 2:\n                raise ValueError\n            X1 = X1.reshape(2, Nsamp, self.N1)\n            kaa = self.kernel(X1[0], self.X1ctrl[0])",
                expect="param-write"),
+        # round 10: each mutant reverts one of the fixes 0590f6b ebc5bc0 ca419fb 701c4a9 d0c6056 6b8928b 13dbdf3
+        Mutant("PartialRBF.k_and_deriv selects and delegates to DiffRBF.k_and_deriv again", KR, fn=_revert_partial_rbf,
+               expect="double-selection"),
+        Mutant("PartialARBF.k_and_deriv returns the sub-kernel gradient", KR,
+               "        dk = np.zeros(k.shape + (nfeat,), dtype=dk_sub.dtype)\n        dk[:, :, inds] = dk_sub\n        return k, dk",
+               "        return k, dk_sub", expect="grad-width"),
+        Mutant("PartialARBF.diag removed (inherits DiffARBF.diag)", KR,
+               "    def diag(self, X):\n        if not np.iterable(self.scale):\n            self.scale = [self.scale] * (self.order + 1)\n        return super(PartialARBF, self).diag(X[:, self._get_inds()])\n\n",
+               "", expect="diag-selection"),
+        Mutant("DiffAntisymRBF.diag removed (inherits all-ones)", KR, regex=True,
+               old=r"    def diag\(self, X\):\n        # This kernel is not normalised(?:.*\n)+?        return 2 - 2 \* np\.exp\(-0\.5 \* diff \* diff\)\n\n",
+               new="", expect="diag-selection"),
+        Mutant("ADKernel.diag ignores active_dims", KR, "return self.k.diag(X[:, self.active_dims])", "return self.k.diag(X)",
+               expect="diag-selection"),
+        Mutant("SingleDot.diag removed", KR,
+               "    def diag(self, X):\n        return super(SingleDot, self).diag(X[:, self.index : self.index + 1])\n\n", "",
+               expect="diag-selection"),
+        Mutant("SpinSymKernel.diag removed (inherits ADKernel.diag)", KR, regex=True,
+               old=r"    def diag\(self, X\):\n        return self\.k\.diag\(X\[:, self\.up_active_dims\]\) \+ self\.k\.diag\(\n            X\[:, self\.down_active_dims\]\n        \)\n",
+               new="", expect="diag-selection"),
+        Mutant("spin scatter overwrites shared columns", KR, "        dkfull[:, :, self.beta_ind] += dk[NX:]",
+               "        dkfull[:, :, self.beta_ind] = dk[NX:]", expect="scatter-accumulate"),
+        Mutant("Subset.diag releases the lock only on success", KR,
+               "        try:\n            result = self._base_cls.diag(self, X[:, self.indexes])\n        finally:\n            self._locked = False\n        return result",
+               "        result = self._base_cls.diag(self, X[:, self.indexes])\n        self._locked = False\n        return result",
+               expect="lock-release"),
+        Mutant("DiffLinearKernel without __init__", KR, regex=True,
+               old=r"(class DiffLinearKernel\(DiffKernelMixin, Kernel\):\n)    def __init__\(self\):\n(?:        #.*\n)*        pass\n\n",
+               new=r"\1", expect="sklearn-init"),
+        Mutant("QARBF stores ndim under another name", KR, "        self.ndim = ndim\n        self.scale = scale\n",
+               "        self.n_dim = ndim\n        self.scale = scale\n", expect=None),
         # Newton-Girard recursions (each mutant reverts one site of the fix)
         Mutant("ARBF.__call__ derivative recursion normalised at the summation", KR, fn=_revert_ng(0), expect="newton-girard"),
         Mutant("ARBF.k_and_deriv derivative recursion normalised at the summation", KR, fn=_revert_ng(1), expect="newton-girard"),
@@ -2147,29 +2546,29 @@ def mutants(tree):
                expect="hyper-memo"),
         # lock
         Mutant("remove a _locked = False (Subset.diag)", KR,
-               "        result = self._base_cls.diag(self, X[:, self.indexes])\n        self._locked = False\n",
-               "        result = self._base_cls.diag(self, X[:, self.indexes])\n", expect="lock-pairing"),
-        Mutant("early return before release (SpinSym.__call__)", KR,
-               "        self._locked = False\n        if eval_gradient:\n            dk = dk[:NX] + dk[NX:]",
-               "        if not eval_gradient:\n            return k\n        self._locked = False\n        if eval_gradient:\n            dk = dk[:NX] + dk[NX:]",
+               "        try:\n            result = self._base_cls.diag(self, X[:, self.indexes])\n        finally:\n            self._locked = False\n        return result",
+               "        result = self._base_cls.diag(self, X[:, self.indexes])\n        return result", expect="lock-pairing"),
+        Mutant("early return before release (SpinSym.diag)", KR,
+               "        diag += np.diag(self._base_cls.__call__(self, XB, XA))\n        self._locked = False\n        return diag",
+               "        diag += np.diag(self._base_cls.__call__(self, XB, XA))\n        if diag.size == 0:\n            return diag\n        self._locked = False\n        return diag",
                expect="lock-pairing"),
         Mutant("diag no longer takes the lock around its delegation", KR,
-               "        self._locked = True\n        result = self._base_cls.diag(self, X[:, self.indexes])\n        self._locked = False\n        return result",
+               "        self._locked = True\n        try:\n            result = self._base_cls.diag(self, X[:, self.indexes])\n        finally:\n            self._locked = False\n        return result",
                "        return self._base_cls.diag(self, X[:, self.indexes])", expect="lock-pairing"),
-        Mutant("SpinSym.k_and_deriv drops both lock statements", KR,
-               "            return self._base_cls.k_and_deriv(self, X, Y=Y)\n        self._locked = True\n        Nfeat = X.shape[1]",
-               "            return self._base_cls.k_and_deriv(self, X, Y=Y)\n        Nfeat = X.shape[1]", expect="lock-pairing"),
+        Mutant("SpinSym.k_and_deriv drops its lock", KR,
+               "            return self._base_cls.k_and_deriv(self, X, Y=Y)\n        self._locked = True\n        try:\n            Nfeat = X.shape[1]",
+               "            return self._base_cls.k_and_deriv(self, X, Y=Y)\n        try:\n            Nfeat = X.shape[1]", expect="lock-pairing"),
         Mutant("lock not taken before base call (Subset.k_and_deriv)", KR,
-               "            return self._base_cls.k_and_deriv(self, X, Y=Y)\n        self._locked = True\n        if Y is not None:\n            Y = Y[:, self.indexes]",
-               "            return self._base_cls.k_and_deriv(self, X, Y=Y)\n        if Y is not None:\n            Y = Y[:, self.indexes]",
+               "            return self._base_cls.k_and_deriv(self, X, Y=Y)\n        self._locked = True\n        try:\n            if Y is not None:\n                Y = Y[:, self.indexes]",
+               "            return self._base_cls.k_and_deriv(self, X, Y=Y)\n        try:\n            if Y is not None:\n                Y = Y[:, self.indexes]",
                expect="lock-pairing"),
-        Mutant("release before the base call (SpinSym.k_and_deriv)", KR,
-               "        k, dk = self._base_cls.k_and_deriv(self, X, Y=Y)\n        k = k[:NX] + k[NX:]",
-               "        self._locked = False\n        k, dk = self._base_cls.k_and_deriv(self, X, Y=Y)\n        k = k[:NX] + k[NX:]",
+        Mutant("release before the base call (SpinSym.diag)", KR,
+               "        diag = self._base_cls.diag(self, XA)\n        diag += self._base_cls.diag(self, XB)",
+               "        self._locked = False\n        diag = self._base_cls.diag(self, XA)\n        diag += self._base_cls.diag(self, XB)",
                expect="lock-pairing"),
         Mutant("_index_and_lock gets a caller", KR,
-               "    def diag(self, X):\n        if self._locked:\n            return self._base_cls.diag(self, X)\n        self._locked = True\n        result = self._base_cls.diag(self, X[:, self.indexes])",
-               "    def diag(self, X):\n        if self._locked:\n            return self._base_cls.diag(self, X)\n        self._locked = True\n        self._index_and_lock(X)\n        result = self._base_cls.diag(self, X[:, self.indexes])",
+               "        self._locked = True\n        try:\n            result = self._base_cls.diag(self, X[:, self.indexes])",
+               "        self._locked = True\n        try:\n            self._index_and_lock(X)\n            result = self._base_cls.diag(self, X[:, self.indexes])",
                expect="lock-pairing"),
         # attributes
         Mutant("ADKernel reads undefined attribute", KR, "return self.k == b.k and self.active_dims == b.active_dims",
